@@ -166,17 +166,21 @@ func randSession(r *rand.Rand, d string, hostile int) (units [][]byte, class str
 	if dup {
 		class += "+dup"
 	}
+	// the size field of 0x1212 is the terminal's to fill: the announced size, nothing, half of it, or nonsense. What is
+	// missing is decided by the size announced in 0x1210
+	size1212 := func(f aFile) int {
+		return []int{len(f.content), len(f.content), 0, len(f.content) / 2, 1<<32 - 1, len(f.content) + 1}[r.Intn(6)]
+	}
 	if hold > 0 {
-		for i, f := range files {
-			_ = i
-			units = append(units, ctl(0x1212, body1211(f.name, 0, len(f.content))))
+		for _, f := range files {
+			units = append(units, ctl(0x1212, body1211(f.name, 0, size1212(f))))
 		}
 		for _, p := range pieces[len(pieces)-hold:] {
 			send(p)
 		}
 	}
 	for _, f := range files {
-		units = append(units, ctl(0x1212, body1211(f.name, 0, len(f.content))))
+		units = append(units, ctl(0x1212, body1211(f.name, 0, size1212(f))))
 	}
 	switch hostile {
 	case 1: // garbage in the middle
